@@ -20,22 +20,25 @@ Fixpoint blen (s : text) : N :=
 Record input := mkIn { off : N; rem : text }.
 
 (* ---- diagnostics and parser state (ast.rs: State) ---- *)
-Inductive dmsg := MEmpty | MUnterminated | MClosing | MExpression | MConfig.
+Inductive dmsg := MEmpty | MUnterminated | MClosing | MExpression | MConfig | MNesting.
 Inductive dkind := KExpect (m : dmsg) | KUnexpected (t : text).
 Record diag := mkDiag { d_kind : dkind; d_lo : N; d_hi : N }.
 
-Record pstate := mkSt { errors : list diag (* newest first *); ignore_next : bool; anon_idx : nat }.
-Definition st0 : pstate := mkSt [] false O.
+Record pstate := mkSt { errors : list diag (* newest first *); ignore_next : bool; anon_idx : nat; nesting : nat }.
+Definition st0 : pstate := mkSt [] false O O.
 
 (* State::report_error *)
 Definition report_error (d : diag) (st : pstate) : pstate :=
-  if ignore_next st then mkSt (errors st) false (anon_idx st)
-  else mkSt (d :: errors st) false (anon_idx st).
+  if ignore_next st then mkSt (errors st) false (anon_idx st) (nesting st)
+  else mkSt (d :: errors st) false (anon_idx st) (nesting st).
 (* State::ignore_next_error *)
-Definition set_ignore_next (st : pstate) : pstate := mkSt (errors st) true (anon_idx st).
+Definition set_ignore_next (st : pstate) : pstate := mkSt (errors st) true (anon_idx st) (nesting st).
 (* State::new_anonymous_scope: returns the new index *)
 Definition new_anonymous_scope (st : pstate) : pstate * nat :=
-  (mkSt (errors st) (ignore_next st) (S (anon_idx st)), S (anon_idx st)).
+  (mkSt (errors st) (ignore_next st) (S (anon_idx st)) (nesting st), S (anon_idx st)).
+(* State::enter_nesting / leave_nesting *)
+Definition enter_nesting (st : pstate) : pstate := mkSt (errors st) (ignore_next st) (anon_idx st) (S (nesting st)).
+Definition leave_nesting (st : pstate) : pstate := mkSt (errors st) (ignore_next st) (anon_idx st) (pred (nesting st)).
 
 Inductive abort := Panic | OutOfFuel.
 Inductive result (A : Type) := Ok (v : A) (r : input) | Err | Abort (a : abort).
@@ -130,10 +133,14 @@ Definition tag (t : text) : parser text := fun st i =>
 
 (* tag_no_case (parser/mod.rs, local; ASCII tags): `input.fragment().get(..tag.len())` -- None when the input is
    shorter than the tag or tag.len() BYTES is not a character boundary -- compared with eq_ignore_ascii_case,
-   then split at tag.len().  Never panics. *)
+   then split at tag.len().  Never panics.  A tag that starts with a letter (it could itself be an identifier) does
+   not match when an identifier character follows it (word boundary). *)
+Definition is_ident_char (c : N) : bool := is_alnum c || (c =? 95).
+Definition word_tag (t : text) : bool := match t with c :: _ => is_alpha c | [] => false end.
+Definition starts_ident (s : text) : bool := match s with c :: _ => is_ident_char c | [] => false end.
 Definition tag_no_case (t : text) : parser text := fun st i =>
   match take_bytes (rem i) (length t) with
-  | BExact a b => if ci_eqb a t then (st, Ok a (consume a b i)) else (st, Err)
+  | BExact a b => if ci_eqb a t && negb (word_tag t && starts_ident b) then (st, Ok a (consume a b i)) else (st, Err)
   | _ => (st, Err)
   end.
 
@@ -186,6 +193,13 @@ Definition not_p {A} (p : parser A) : parser unit := fun st i =>
   | (st1, Abort x) => (st1, Abort x)
   end.
 
+(* peek: the value, without consuming *)
+Definition peek {A} (p : parser A) : parser A := fun st i =>
+  match p st i with
+  | (st1, Ok v _) => (st1, Ok v i)
+  | x => x
+  end.
+
 (* recognize: the consumed text *)
 Definition recognize {A} (p : parser A) : parser text := fun st i =>
   match p st i with
@@ -232,6 +246,14 @@ Definition expect {A} (p : parser A) (m : dmsg) : parser (option A) := fun st i 
       end
   | (st1, Abort x) => (st1, Abort x)
   end.
+
+(* ---- parser/mod.rs: nested (max_depth = MAX_NESTING_DEPTH of ast.rs): beyond the limit the parser is not run, a
+   diagnostic with an empty span is reported and the result is nom's Error; the level is left again in every case ---- *)
+Definition nested {A} (max_depth : nat) (p : parser A) : parser A := fun st i =>
+  let st1 := enter_nesting st in
+  if (nesting st1 <=? max_depth)%nat then
+    match p st1 i with (st2, r) => (leave_nesting st2, r) end
+  else (leave_nesting (report_error (mkDiag (KExpect MNesting) (off i) (off i)) st1), Err).
 
 (* ---- Located ---- *)
 Inductive trivia :=
